@@ -27,6 +27,7 @@ type Engine struct {
 	LoadS   float64
 	syntax  []*ast.File
 	addrTaken []*ssa.Function
+	impNames  map[string]map[string]string
 }
 
 // Term is an SMT term with its sort and (when known) Go type.
